@@ -552,6 +552,13 @@ func (fr *frame) execUnOp(x *ssa.UnOp, st *State) {
 			fr.setVal(x, app("Int", "-", v))
 		}
 	case token.ARROW:
+		// a plain receive is visible to the ghost call trace like a receive
+		// case of a select: a call of "chan-recv:<operand>"
+		{
+			name := "chan-recv:" + operandName(x.X)
+			fr.atCall(name, st, x.Pos(), nil, nil, nil)
+			c.traceCall(name, st)
+		}
 		if x.CommaOk {
 			et := under(x.X.Type()).(*types.Chan).Elem()
 			r := c.fresh("recv", c.R.SortOf(et))
